@@ -16,6 +16,15 @@ type C05Case struct {
 	Via   string `json:"via"`  // flat | iterator | newiter
 	Walk  string `json:"walk"` // forward | reverse | reset | switch | switchback
 	K     int    `json:"k"`    // position of the reset / switch
+	// Walk == "prog": a generated sequence of segments. Each entry is a number of elements to consume
+	// (>= 0; clamped to what is left; -1 = to exhaustion, then Done and the failing Next are checked)
+	// followed by what is done next: "reset", "reverse", "forward" or "" (nothing).
+	Prog []C05Seg `json:"prog,omitempty"`
+}
+
+type C05Seg struct {
+	N    int    `json:"n"`
+	Then string `json:"then,omitempty"`
 }
 
 func init() { register("C05.flat", func() Case { return &C05Case{} }) }
@@ -42,7 +51,7 @@ func (c *C05Case) NTKey() string {
 	if !layoutNT(c.L, c.Shape) {
 		return ""
 	}
-	return fmt.Sprintf("%v|%v|%s|%s|%d", c.Shape, c.L, c.Via, c.Walk, c.K)
+	return fmt.Sprintf("%v|%v|%s|%s|%d|%v", c.Shape, c.L, c.Via, c.Walk, c.K, c.Prog)
 }
 
 // expectOffsets computes, from the harness's own bookkeeping, the storage offset
@@ -74,10 +83,14 @@ type walker struct {
 }
 
 // full performs a complete walk in the given direction and checks every step.
-func (w *walker) full(reverse bool) string {
+func (w *walker) full(reverse bool) string { return w.segment(reverse, 0, len(w.arr.E), true) }
+
+// segment consumes the elements from..to-1 (counted in the current direction) and checks every step;
+// with end it also checks what follows the last element.
+func (w *walker) segment(reverse bool, from, to int, end bool) string {
 	n := len(w.arr.E)
 	seen := map[int]bool{}
-	for k := 0; k < n; k++ {
+	for k := from; k < to; k++ {
 		lk := k
 		if reverse {
 			lk = n - 1 - k
@@ -112,6 +125,9 @@ func (w *walker) full(reverse bool) string {
 			return fmt.Sprintf("%s: offset %d yielded twice", w.desc, o)
 		}
 		seen[o] = true
+	}
+	if !end {
+		return ""
 	}
 	if !w.it.Done() {
 		return fmt.Sprintf("%s: not Done() after %d steps (reverse=%v)", w.desc, n, reverse)
@@ -199,6 +215,32 @@ func (c *C05Case) Run() string {
 				it.Reset()
 				msg = w.full(false)
 			}
+		case "prog":
+			reverse, pos := false, 0
+			for si, sg := range c.Prog {
+				to := pos + sg.N
+				end := false
+				if sg.N < 0 || to >= n {
+					to, end = n, sg.N < 0
+				}
+				if msg = w.segment(reverse, pos, to, end); msg != "" {
+					msg = fmt.Sprintf("segment %d of %v: %s", si, c.Prog, msg)
+					return
+				}
+				pos = to
+				switch sg.Then {
+				case "reset":
+					it.Reset()
+					pos = 0
+				case "reverse":
+					it.SetReverse()
+					reverse, pos = true, 0
+				case "forward":
+					it.SetForward()
+					reverse, pos = false, 0
+				}
+			}
+			msg = w.segment(reverse, pos, n, true)
 		}
 	})
 	if pan != "" {
@@ -439,13 +481,23 @@ func genC05Shape(rt *rapid.T) []int {
 }
 
 func TestC05(t *testing.T) {
-	walks := []string{"forward", "reverse", "reset", "revreset", "switch", "switchback", "twice"}
+	walks := []string{"forward", "reverse", "reset", "revreset", "switch", "switchback", "twice", "prog"}
 	for _, lk := range c05Layouts {
 		for _, walk := range walks {
 			lk, walk := lk, walk
 			cell(t, "C05", "C05.flat", lk+"/"+walk, nCases(40, 1500), func(rt *rapid.T) Case {
 				shape := genC05Shape(rt)
-				return &C05Case{Shape: shape, L: genLayoutKind(rt, lk, len(shape), "l"), Via: rapid.SampledFrom([]string{"flat", "iterator", "newiter"}).Draw(rt, "via"), Walk: walk, K: rapid.IntRange(0, prod(shape)).Draw(rt, "k")}
+				c := &C05Case{Shape: shape, L: genLayoutKind(rt, lk, len(shape), "l"), Via: rapid.SampledFrom([]string{"flat", "iterator", "newiter"}).Draw(rt, "via"), Walk: walk, K: rapid.IntRange(0, prod(shape)).Draw(rt, "k")}
+				if walk == "prog" {
+					for i, ns := 0, rapid.IntRange(1, 4).Draw(rt, "nseg"); i < ns; i++ {
+						sg := C05Seg{N: rapid.IntRange(-1, prod(shape)+1).Draw(rt, "n"), Then: rapid.SampledFrom([]string{"reset", "reverse", "forward", "reverse", "forward", ""}).Draw(rt, "then")}
+						if rapid.IntRange(0, 2).Draw(rt, "exhaust") == 0 {
+							sg.N = -1
+						}
+						c.Prog = append(c.Prog, sg)
+					}
+				}
+				return c
 			})
 		}
 	}
@@ -469,6 +521,44 @@ func TestC05(t *testing.T) {
 				mask[i] = rapid.Bool().Draw(rt, "m")
 			}
 			return &C05Mask{Shape: shape, Mask: mask, Rev: rapid.IntRange(0, 3).Draw(rt, "rev") == 0, L: genLayoutKind(rt, lk, len(shape), "l")}
+		})
+	}
+	// larger shapes (dimensions up to 100): layout bookkeeping keyed on strides, and anything else that small
+	// dimensions cannot tell apart
+	for _, nt := range []int{2, 3} {
+		nt := nt
+		cell(t, "C05", "C05.multi", fmt.Sprintf("multi-large/%d", nt), nCases(20, 600), func(rt *rapid.T) Case {
+			shape := []int{rapid.IntRange(2, 100).Draw(rt, "m"), rapid.IntRange(1, 4).Draw(rt, "n")}
+			if rapid.Bool().Draw(rt, "hostile") {
+				// dimensions around powers of two and around multiples of small primes times the other dimension
+				n := shape[1]
+				shape[0] = rapid.SampledFrom([]int{7, 8, 9, 15, 16, 17, 31, 32, 33, 63, 64, 65, 31*n - 30, 31*n - 31, 31 * n, 33*n - 32, 17*n - 16, 37*n - 36, 2 * n, n * n}).Draw(rt, "mh")
+				if shape[0] < 2 {
+					shape[0] = 2
+				}
+			}
+			if rapid.Bool().Draw(rt, "swap") {
+				shape[0], shape[1] = shape[1], shape[0]
+			}
+			if rapid.IntRange(0, 3).Draw(rt, "r3") == 0 {
+				shape = append(shape, rapid.IntRange(1, 3).Draw(rt, "k"))
+			}
+			c := &C05Multi{Shape: shape, Rev: rapid.IntRange(0, 4).Draw(rt, "rev") == 0}
+			for i := 0; i < nt; i++ {
+				lk := rapid.SampledFrom([]string{"contig", "lazyT", "cmraw", "cmraw", "lazyT", "sliced"}).Draw(rt, "lk")
+				c.Ls = append(c.Ls, genLayoutKind(rt, lk, len(shape), fmt.Sprintf("l%d", i)))
+			}
+			return c
+		})
+	}
+	for _, lk := range []string{"contig", "lazyT", "cmraw", "stepsliced"} {
+		lk := lk
+		cell(t, "C05", "C05.flat", "flat-large/"+lk, nCases(10, 300), func(rt *rapid.T) Case {
+			shape := []int{rapid.IntRange(2, 100).Draw(rt, "m"), rapid.IntRange(1, 4).Draw(rt, "n")}
+			if rapid.Bool().Draw(rt, "swap") {
+				shape[0], shape[1] = shape[1], shape[0]
+			}
+			return &C05Case{Shape: shape, L: genLayoutKind(rt, lk, 2, "l"), Via: rapid.SampledFrom([]string{"flat", "iterator", "newiter"}).Draw(rt, "via"), Walk: rapid.SampledFrom([]string{"forward", "reverse", "twice"}).Draw(rt, "walk")}
 		})
 	}
 	// multi-iterator
